@@ -36,7 +36,7 @@ CHECKS = {
                     "reference model (lattice regime, exact) or a solid-angle winding oracle (general position); BFS re-uses every distinct "
                     "result mesh as an operand. Exhaustive inside the bound, silent outside it."),
         level_note="Trusted: compiler, the 60-line voxel model, the long-double solid-angle winding oracle (cross-checked against the voxel model on every lattice case). Bound: depth <= 3 programs over boxes of [0,2]^3/[0,3]^3 and a 30-leaf general-position family.",
-        runs=[S("seq-fast", quick=170, thorough=5400)],
+        runs=[S("seq-fast", quick=900, thorough=7200)],
         rule=("exhaustive enumeration of CSG programs: all ordered pairs of the 216 integer boxes of [0,3]^3 x {+,-,^,Split}; all depth-2 "
               "programs over the 27 boxes of [0,2]^3 (both nestings, forced and lazy intermediates); breadth-first search over (voxel set, "
               "canonical mesh) states re-using every result mesh as operand; thorough adds all depth-3 programs. General position: all ordered "
